@@ -28,7 +28,7 @@ MIN_DISTINCT = {"quick": 300, "thorough": 3000}
 ASSUMPTIONS = ["reference encoder + hashlib; the reader serves the bytes the harness wrote",
                "a bare all-hex, even-length token as integrated-payload VALUE is a hex literal by the language's own "
                "precedence (recorded as hex_lookalike_literal, no verdict)"]
-N = {"quick": 2400, "thorough": 80000}
+N = {"quick": 2000, "thorough": 80000}
 CAP = {"quick": 30, "thorough": 800}
 SIZES = [0, 1, 23, 24, 255, 256, 4095, 4096, 4097, 8192, 65535, 65536, 65537, 100000, 131072, 131073, 200001]
 FNAMES = ["fw.bin", "with space.bin", "ünï côdé.bin", "deadbeef.bin", "./cafe", "abcdef", "deadbeef", "00", "1234.5678",
